@@ -197,17 +197,37 @@ def gen(seed, tier):
 
 
 def close_case(c):
-    """a client thread that calls worker() needs somebody else to stop the pool (otherwise the client program deadlocks itself,
-    which is not the pool's fault): keep shrunk cases inside the class of programs the property speaks about"""
+    """keep shrunk cases inside the class of programs the property speaks about (programs that do not deadlock themselves):
+    * a client thread that calls worker() needs somebody else to stop the pool;
+    * a wait needs an existing submission; a job that waits for a submission needs a second worker, and client 0 has to
+      wait for that submission too before it destroys the pool (a stop() joins the waiting job's worker before it cancels
+      the queued tasks)."""
     ops = [list(o) for o in c.ops]
+    sched = [o for o in ops if o and o[0] == 9]
+    ops = [o for o in ops if not (o and o[0] == 9)]
+    nsub = 0
+    for o in ops:   # count accepted submissions the way the decoder does (roughly: well-formed ones)
+        if len(o) >= 3 and o[0] == 2 and 0 <= o[1] <= 2 and 0 <= o[2] <= 5 and len(o) <= 9:
+            nsub += 1
+    # drop waits for submissions that do not exist
+    ops = [o for o in ops if not (len(o) == 3 and o[0] == 5 and not (0 <= o[2] < nsub))]
+    for o in ops:
+        if len(o) >= 3 and o[0] == 2:
+            o[3:] = [x for x in o[3:] if not (10 <= x < 50 and x - 10 >= nsub)]
+    targets = sorted({x - 10 for o in ops if len(o) >= 3 and o[0] == 2 for x in o[3:] if 10 <= x < 50})
+    if targets:
+        ops = [o for o in ops if not (len(o) == 2 and o[0] == 1)]
+        ops.insert(0, [1, 2])
+        for t in targets:
+            if not any(len(o) == 3 and o[0] == 5 and o[1] == 0 and o[2] == t for o in ops):
+                ops.append([5, 0, t])
     workers = [o[1] for o in ops if len(o) == 2 and o[0] == 4 and 0 <= o[1] <= 2]
     if workers:
         last_w = max(i for i, o in enumerate(ops) if len(o) == 2 and o[0] == 4)
         cl = ops[last_w][1]
         if not any(len(o) == 2 and o[0] == 3 and o[1] != cl and 0 <= o[1] <= 2 for o in ops[last_w:]):
-            sched = [o for o in ops if o and o[0] == 9]
-            ops = [o for o in ops if not (o and o[0] == 9)] + [[3, 1 if cl == 0 else 0]] + sched
-    return Case(c.engine, c.name, ops, c.meta)
+            ops.append([3, 1 if cl == 0 else 0])
+    return Case(c.engine, c.name, ops + sched, c.meta)
 
 
 def canon(obs):
